@@ -2,6 +2,7 @@
 package main
 
 import (
+	"encoding/json"
 	"flag"
 	"fmt"
 	"os"
@@ -17,7 +18,17 @@ func main() {
 	repo := flag.String("repo", "/repo", "repository root")
 	verif := flag.String("verif", "/verif", "verif root")
 	out := flag.String("out", "", "directory for evidence/ and replay/ (default: verif root)")
+	explain := flag.Bool("explain", false, "print the registry's explanations as JSON and exit")
 	flag.Parse()
+	if *explain {
+		out := map[string]map[string]any{}
+		for id, p := range props.Registry {
+			out[id] = map[string]any{"explanation": p.Explanation, "assumptions": p.Assumptions, "patterns": p.Patterns}
+		}
+		b, _ := json.MarshalIndent(out, "", " ")
+		fmt.Println(string(b))
+		return
+	}
 	p, ok := props.Registry[*prop]
 	if !ok {
 		fmt.Fprintf(os.Stderr, "unknown property %q\n", *prop)
